@@ -1,7 +1,7 @@
 (* C09: the case type evaluated by the harness-generated shards, and the checker `ok`.
    One constructor per modelled container.  Definitions only. *)
 From ZV.Common Require Import Base Run.
-From ZV.C09 Require Import Model ModelSorted.
+From ZV.C09 Require Import Model ModelSorted ModelIntVec ModelUintVector ModelMin0Typed.
 Open Scope N_scope.
 
 Fixpoint eqb_llz (a b : list (list Z)) : bool :=
@@ -14,7 +14,10 @@ Fixpoint eqb_llz (a b : list (list Z)) : bool :=
 Inductive case_t : Type :=
 | CMin0 (ops : list (N * list N)) (expect : list (list Z))
 | CSorted (log2 ow sw : N) (simd : bool) (vals : list N) (expect : list (list Z))
-| CZip (mode : N) (vals : list N) (expect : list (list Z)).
+| CZip (mode : N) (vals : list N) (expect : list (list Z))
+| CIntVec (ctor tbits : N) (signed : bool) (vals : list Z) (idx : list N) (expect : list (list Z))
+| CUintVec (by_push : bool) (vals : list N) (probes : list (N * N)) (idx : list N) (expect : list (list Z))
+| CMin0Typed (signed : bool) (vals : list Z) (expect : list (list Z)).
 
 (* ZipIntVec: modes 0 build_from_usize, 2 build_from_u32, 1 new(0,min,max(max,min+1)) + push_back, 3 new(0,min,min+1) + push_back;
    observation: [0; size; bits; min_val], get(n), get(n+1), get(usize::MAX), then all gets; Panic = -1, OOB = -2 *)
@@ -44,4 +47,8 @@ Definition ok (c : case_t) : bool :=
   | CSorted l o s sd vals expect =>
       eqb_llz (sorted_obs {| log2bu := l; ow := o; sw := s; simd := sd |} vals) expect
   | CZip mode vals expect => eqb_llz (zip_obs mode vals) expect
+  | CIntVec ctor tb sg vals idx expect =>
+      eqb_llz (intvec_obs ctor {| ebits := tb; esigned := sg |} vals idx) expect
+  | CUintVec by_push vals probes idx expect => eqb_llz (uintvector_obs by_push vals probes idx) expect
+  | CMin0Typed sg vals expect => eqb_llz (min0typed_obs sg vals) expect
   end.
